@@ -15,7 +15,16 @@ import (
 	"time"
 )
 
-const Root = "/verif"
+// Root is the verification tree (VERIF_ROOT, default /verif); Repo the repository under test.
+var Root = envOr("VERIF_ROOT", "/verif")
+var Repo = envOr("VERIF_REPO", "/repo")
+
+func envOr(k, d string) string {
+	if v := os.Getenv(k); v != "" {
+		return v
+	}
+	return d
+}
 
 // KnownFinding is one entry of known_findings.json (committed, read-only at run time).
 type KnownFinding struct {
